@@ -3,6 +3,9 @@
 a scratch git worktree of /repo with the patch applied + a copy of the harness whose path dependency points at it."""
 import sys, os, subprocess, json, shutil, tempfile
 V = os.path.dirname(os.path.dirname(os.path.abspath(__file__)))
+KEEP = "--keep" in sys.argv        # leave the scratch directory in place (its path is printed) for a look at the traces
+if KEEP:
+    sys.argv.remove("--keep")
 seed = os.path.abspath(sys.argv[1])
 pids = sys.argv[2:] or ["C%02d" % i for i in range(1, 20) if i != 14]   # C14 reads /repo itself: tools/try_mutation.sh
 tmp = tempfile.mkdtemp(prefix="orxseed.")
@@ -37,5 +40,8 @@ try:
         print(p, r.returncode, kind, why[:110], flush=True)
     json.dump(res, open(mp, "w"), indent=1)
 finally:
-    subprocess.run(["git", "-C", "/repo", "worktree", "remove", "--force", wt])
-    shutil.rmtree(tmp, ignore_errors=True)
+    if KEEP:
+        print("kept:", tmp, "(remove with: git -C /repo worktree remove --force %s; rm -rf %s)" % (wt, tmp))
+    else:
+        subprocess.run(["git", "-C", "/repo", "worktree", "remove", "--force", wt])
+        shutil.rmtree(tmp, ignore_errors=True)
